@@ -409,9 +409,22 @@ def fix_starred_imports(source: str) -> str:
 
     # Remove remaining starred imports
     for node in core.filter_nodes(root.body, template):
-        if node.level or node.module is None or _trace_module_source_file(node.module) is None:
+        if node.level or node.module is None:
+            continue
+        origin = _trace_module_source_file(node.module)
+        if origin is None:
             # What a module that cannot be found provides is unknown
             continue
+        if origin.endswith(".py"):
+            with open(origin, "r", encoding="utf-8") as stream:
+                module_root = core.parse(stream.read())
+            if any(
+                module_node.level
+                for module_node in core.walk(module_root, ast.ImportFrom)
+                if any(alias.name == "*" for alias in module_node.names)
+            ):
+                # And so is what it gets from its own relative starred imports
+                continue
         if not core.match_template(node, tuple(starred_import_name_mapping)):
             yield node, None
 
